@@ -26,7 +26,7 @@ import (
 
 func init() {
 	register(&Prop{
-		ID: "C03", Gen: genC03, Run: runC03, Quick: 40000, Thorough: 3000000,
+		ID: "C03", Gen: genC03, Run: runC03, Quick: 40000, Thorough: 6000000,
 		Real: []string{"pkg/collector decodePacket / decodeTemplateSet / decodeDataSet / template table (through the VerifDecodePacket hook)", "pkg/collector UDP server path (Start, socket read loop, per-client goroutine) for a fraction of runs", "pkg/entities value decoding", "pkg/registry"},
 		Stub: []string{"OS sockets (simnet) on the UDP path", "network corruption = plan-chosen mutations of valid messages (bit flips, truncation, extension, splice, length tampering)"},
 		Rule: "1-6 messages per run against one collector: grammar-generated templates (known, unknown, unsupported-type, degenerate) and data, then transport mutations, plus random bytes; three decoding modes; every delivered message compared with the reference parse (oracle/ipfixref + template-table model); non-trivial = at least one message was delivered and at least one was mutated or degenerate; distinct = distinct hash of (mode, message bytes)",
